@@ -11,7 +11,7 @@ from . import sqlproxy as SP
 OPS_ALL = ["mk", "mk", "mk_child", "mk_child", "add", "set", "set", "set_parent", "bs_append", "bs_remove", "bs_replace", "tag_add", "tag_remove",
            "node_parent", "follow", "unfollow", "set_p", "k_rename", "h_doc", "delete", "expunge", "flush", "flush", "commit", "rollback",
            "begin_nested", "sp_commit", "sp_rollback", "close", "requery", "get", "lazy", "expire", "expire_all", "refresh",
-           "mut_data", "mut_items", "ext_update", "merge", "drop", "gc", "pickle_rt", "populate_existing", "q_ops", "g_ops", "expire_attr", "read", "m_ops", "m_reload", "reset", "set_k", "bulk", "row_replace"]
+           "mut_data", "mut_items", "ext_update", "merge", "drop", "gc", "pickle_rt", "populate_existing", "q_ops", "g_ops", "expire_attr", "read", "m_ops", "m_reload", "reset", "set_k", "bulk", "row_replace", "label"]
 
 
 _ENGINES = {}
@@ -98,7 +98,7 @@ class Run:
         mod.plan = self.plan
         holder["run"] = self
         self.obs = sqlite3.connect(self.path, timeout=0, isolation_level=None)
-        for t in ("b_t", "nf", "o", "g", "r", "q", "h", "d", "bl", "p", "b", "a2", "a", "t", "node", "k", "m"):
+        for t in ("b_t", "nf", "nl", "o", "g", "r", "q", "h", "d", "bl", "p", "b", "a2", "a", "t", "node", "k", "m"):
             self.obs.execute("delete from %s" % t)
         self.session = None
         self.new_session()
@@ -189,7 +189,7 @@ class Run:
         out = {}
         for t, cols in self.U["tables"].items():
             rows = c.execute("select %s from %s" % (", ".join(cols), t)).fetchall()
-            out[t] = {tuple(r[:2]) if t in ("b_t", "nf") else r[0]: tuple(r) for r in rows}
+            out[t] = {tuple(r[:2]) if t in ("b_t", "nf", "nl") else r[0]: tuple(r) for r in rows}
         return out
 
     def entries(self, pred=None):
@@ -660,7 +660,7 @@ class Run:
         return v.hex() if isinstance(v, (bytes, bytearray)) else v
 
     def tables_unjson(self, j):
-        return {t: {(tuple(r[:2]) if t in ("b_t", "nf") else r[0]): tuple(r) for r in rows} for t, rows in j.items()}
+        return {t: {(tuple(r[:2]) if t in ("b_t", "nf", "nl") else r[0]): tuple(r) for r in rows} for t, rows in j.items()}
 
     def c32_collect(self):
         """fault-free run: the positions a fault can be injected at (DML statements and ORM hooks of the transaction after reset)"""
@@ -1106,6 +1106,58 @@ class Run:
             return not rows and not any(OS.loaded(e["obj"], "k")[1] is ko for e in self.entries(self.of("A", "A2")))
         return all(r in held for r in rows)
 
+    def label_refs(self, t):
+        """nl rows and loaded Node.labels collections that refer to this T"""
+        pk = OS.pk_of(t)
+        rows = [r for r in self.prev_tables["nl"].values() if r[1] == pk] if pk is not None else []
+        holders = [e for e in self.entries(self.of("Node")) if any(x is t for x in (OS.loaded(e["obj"], "labels")[1] or []))]
+        return rows, holders
+
+    def op_label(self, a1, a2):
+        """Node.labels: many-to-many to T without a reverse side.  how 0/1: add, 2: remove, 3: remove the member and delete it in the
+        same flush (valid: the association row goes with the removal)"""
+        n = self.pick(a1, lambda e: e["cls"] == "Node" and self.usable(e))
+        if n is None:
+            return "skip"
+        no = n["obj"]
+        how = a2 % 4
+        if how <= 1:
+            t = self.pick(a2 // 4, lambda e: e["cls"] == "T" and self.usable(e))
+            if t is None or not self.pair_ok(no, t["obj"]) or t["obj"] in no.labels:
+                return "skip"
+            before_members = self.members()
+            no.labels.append(t["obj"])
+            if self.in_session(no):
+                self.check_add_cascade(no, before_members)
+            return "%d#%d" % (n["label"], t["label"])
+        if not no.labels:
+            return "skip"
+        t = no.labels[(a2 // 4) % len(no.labels)]
+        if not self.member_ok(t):
+            return "skip"
+        if how == 2:
+            no.labels.remove(t)
+            return "%d!#" % n["label"]
+        # remove + delete: every reference to t must be this one (rows and loaded collections), and t must be deletable otherwise
+        rows, holders = self.label_refs(t)
+        npk = OS.pk_of(no)
+        if any(r[0] != npk for r in rows) or any(h is not n for h in holders) or OS.state_of(t) != "persistent" or t in self.session.deleted:
+            return "skip"
+        et = self.track(t)
+        cands = [c for c in self.objs if c["obj"] is not None and OS.state_of(c["obj"]) == "persistent" and self.in_session(c["obj"])
+                 and c["obj"] not in self.session.deleted and c["cls"] not in ("D", "BL")]
+        no.labels.remove(t)
+        self._label_delete = True
+        try:
+            res = self.op_delete(cands.index(et), 1) if et in cands else "skip"
+        finally:
+            self._label_delete = False
+        if res == "skip":
+            no.labels.append(t)
+            return "skip"
+        self.bump("probe:label_removed_and_deleted")
+        return "%d!#del" % n["label"]
+
     def op_k_rename(self, a1, a2):
         k = self.pick(a1, lambda e: e["cls"] == "K" and self.usable(e))
         if k is None:
@@ -1272,6 +1324,8 @@ class Run:
             return "skip"
         if e["cls"] == "K" and not self.k_referrers_ok(o, False):
             return "skip"      # R1: A.k has no reverse side that could null the referring rows out
+        if e["cls"] == "T" and not getattr(self, "_label_delete", False) and self.label_refs(o):
+            return "skip"      # R1: Node.labels has no reverse side: association rows of a deleted T are only removed from the Node side
         # R1: the object to delete must not take part in any relationship change that has not been flushed yet (a child attached to
         # a parent that is deleted in the same flush, an association row added for a deleted object, ... are invalid final states)
         insp = self.m["inspect"]
@@ -1356,6 +1410,8 @@ class Run:
             return "skip"
         if pk is not None and any(pk in (r[0], r[1]) for t2 in ("b_t", "nf") for r in tabs[t2].values()
                                   if (t2 == "nf" and e["cls"] == "Node") or (t2 == "b_t" and e["cls"] in ("B", "T"))):
+            return "skip"
+        if pk is not None and any((e["cls"] == "Node" and r[0] == pk) or (e["cls"] == "T" and r[1] == pk) for r in tabs["nl"].values()):
             return "skip"
         if e["cls"] in ("D", "BL", "R", "B", "P", "O") or (pk is not None and any(
                 row[cols.index(col)] == pk for (t2, col) in (("b", "a_id"), ("p", "a_id"), ("node", "parent_id"), ("r", "q_id"), ("h", "d_id"), ("d", "bl_id"),
@@ -2713,7 +2769,7 @@ class Run:
         # no row refers to a row that does not exist (deferred / unenforced foreign keys included)
         for t2, col, t3 in (("a", "k_name", "k"), ("b", "a_id", "a"), ("p", "a_id", "a"), ("node", "parent_id", "node"), ("d", "bl_id", "bl"),
                             ("h", "d_id", "d"), ("r", "q_id", "q"), ("o", "g_id", "g"), ("b_t", "b_id", "b"), ("b_t", "t_id", "t"),
-                            ("nf", "src", "node"), ("nf", "dst", "node"), ("a2", "id", "a")):
+                            ("nf", "src", "node"), ("nf", "dst", "node"), ("a2", "id", "a"), ("nl", "node_id", "node"), ("nl", "t_id", "t")):
             j = U["tables"][t2].index(col)
             for key, row in now[t2].items():
                 if row[j] is not None and row[j] not in now[t3]:
